@@ -198,7 +198,7 @@ func scalarToken(t string) (*ref.JDoc, error) {
 	return d, nil
 }
 
-const maxDepth = 64
+const maxDepth = 256
 
 func (p *parser) value(depth int) (*ref.JDoc, error) {
 	if depth > maxDepth {
